@@ -65,19 +65,16 @@ func (a *Aggregate) Aggregate(message string) error {
 		set.Samples += samples
 	}
 
-	// Merge data from group into global group.
+	// Merge data from group into global group. The merge has to wait for its turn: a
+	// non-blocking attempt which loses against another server's merge (or against the
+	// result reporter) would leave this data behind for good if it was the server's last
+	// message.
 	vhook.Point("cli.merge.attempt")
-	isMerged, err := a.globalGroup.MergeNoblock(a.query, a.group)
-	if err != nil {
+	if err := a.globalGroup.Merge(a.query, a.group); err != nil {
 		panic(err)
 	}
-	if !isMerged {
-		vhook.Point("cli.merge.skipped")
-	}
-	if isMerged {
-		// Re-init local group (make it empty again).
-		a.group.InitSet()
-	}
+	// Re-init local group (make it empty again).
+	a.group.InitSet()
 	return nil
 }
 
